@@ -2404,7 +2404,10 @@ impl<'input, T: Input> Scanner<'input, T> {
 
         // Skip over ':'.
         self.skip_non_blank();
-        if self.input.look_ch() == '\t'
+        // In a flow collection a tab is plain separation (e.g. JSON `{"a":\t1}`); only in block
+        // context may it be mistaken for indentation of a nested block node.
+        if self.flow_level == 0
+            && self.input.look_ch() == '\t'
             && !self.skip_ws_to_eol(SkipTabs::Yes)?.has_valid_yaml_ws()
             && (self.input.peek() == '-' || self.input.next_is_alpha())
         {
